@@ -1,6 +1,9 @@
 (* C18/PageProofs.v — parseIndexPage and detectIndexType on the image of a well-formed page. *)
 Require Import PG.Base.Bytes PG.Base.GoSlice PG.C18.Types PG.C18.Model PG.C18.Spec PG.C18.Lib PG.C18.SpecialProofs.
 
+Lemma type_string_ok' m : IndexType_String (am_code m) = am_name m.
+Proof. destruct m; reflexivity. Qed.
+
 Lemma special_cases p : special_of p = 8176 \/ special_of p = 8184.
 Proof. unfold special_of. destruct (opaque_size_cases (ip_op p)) as [-> | ->]; auto. Qed.
 
@@ -102,10 +105,11 @@ Proof.
   destruct (ip_op p) as [prev next level flags cyc | prev next bucket flags | nh nl rl flags | rl maxoff flags
                         | flags nr np | v0 v1 flags ptype] eqn:Eo;
     cbn [wf_opaque] in Wo; cbn [am_of am_code];
-    (assert (Hsp : special_of p = 8176) by (unfold special_of; rewrite Eo; reflexivity)
-     || assert (Hsp : special_of p = 8184) by (unfold special_of; rewrite Eo; reflexivity));
+    first [ assert (Hsp : special_of p = 8176) by (unfold special_of; rewrite Eo; reflexivity)
+          | assert (Hsp : special_of p = 8184) by (unfold special_of; rewrite Eo; reflexivity) ];
     rewrite Hsp in *; clear Hs;
-    cbn [Z.eqb Z.geb Z.compare Pos.compare Pos.compare_cont orb Z.sub Z.pos_sub Pos.pred_double Z.succ_double Z.pred_double Z.double Z.opp];
+    change (8192 - 8176) with 16; change (8192 - 8184) with 8; change (8192 - 2) with 8190;
+    cbn [Z.eqb Z.geb Z.compare Pos.compare Pos.compare_cont Pos.eqb orb andb];
     (rewrite slice_from_ok by (rewrite len_mk; lia)); cbn [bind]; rewrite len_mk, L; cbn [vis]; rewrite Hop.
   - (* B-tree: the trailer is the cycle id <= 0xFF7F *)
     destruct Wo as (?&?&?&?&?). unfold MAX_BT_CYCLE_ID in *.
